@@ -505,6 +505,54 @@ func main() {
 			}
 		})
 		w.Close()
+	case "inflate":
+		// valid files with very long comments / literals in and around the import section: reading must not
+		// depend on how much fits into a buffer.  Judged natively against go/parser (the named reference).
+		corpus := loadCorpus(*cases)
+		if len(corpus) == 0 {
+			vutil.Fatalf("empty corpus %s", *cases)
+		}
+		rng := vutil.Rand(19)
+		var inputs [][]byte
+		for k := 0; k < *n; k++ {
+			base := corpus[rng.Intn(len(corpus))]
+			l := []int{4095, 4096, 4097, 5000, 8192, 70000}[rng.Intn(6)]
+			fill := bytes.Repeat([]byte{'c'}, l)
+			var ins []byte
+			switch rng.Intn(4) {
+			case 0:
+				ins = append(append([]byte("//"), fill...), '\n')
+			case 1:
+				ins = append(append([]byte("/*"), fill...), []byte("*/")...)
+			case 2:
+				ins = append(append([]byte("/*\n"), fill...), []byte("\n*/\n")...)
+			case 3:
+				ins = append(append([]byte("\nimport \""), fill...), []byte("\"\n")...)
+			}
+			// positions: start of file (after a BOM), after some newline, end of file
+			var cand []int
+			start := 0
+			if hasBOM(base) {
+				start = 3
+			}
+			cand = append(cand, start, len(base))
+			for i, c := range base {
+				if c == '\n' {
+					cand = append(cand, i+1)
+				}
+			}
+			pos := cand[rng.Intn(len(cand))]
+			in := append(append(append([]byte{}, base[:pos]...), ins...), base[pos:]...)
+			inputs = append(inputs, in)
+		}
+		vutil.ParallelN(len(inputs), func(i int) {
+			in := inputs[i]
+			j.check(in, nil, false)
+			res.Eval(true)
+			if i < 2 {
+				res.Sample(map[string]interface{}{"inflated_file_len": len(in), "head": string(in[:60])}, 14)
+			}
+		})
 	case "one":
 		// replay of one input: {"input": {"bytes": [...]}} as written to evidence/replay
 		b, err := os.ReadFile(*input)
